@@ -155,6 +155,20 @@ def run(prop):
         if p.returncode != 0:
             raise variants.Skip("bin/cifswap-twin failed: %s" % p.stdout.decode("utf-8", "replace")[-200:])
     todo.append(("twin:IFS", None, "silent", {"apply": _ifs, "rules": []}))
+
+    def _grd(d):
+        # guard-clause style: `else` after a jump dropped (Python and both C files), trailing `if c: A` turned into `if not c: return` + A
+        p = subprocess.run([os.path.join(core.VERIF, "bin", "guard-twin"), d], stdout=subprocess.PIPE, stderr=subprocess.STDOUT)
+        if p.returncode != 0:
+            raise variants.Skip("bin/guard-twin failed: %s" % p.stdout.decode("utf-8", "replace")[-200:])
+    todo.append(("twin:GRD", None, "silent", {"apply": _grd, "rules": []}))
+
+    def _trn(d):
+        # `if (c) X = a; else X = b;` / `if (c) return a; else return b;` of both C files written as conditional expressions
+        p = subprocess.run([os.path.join(core.VERIF, "bin", "cternary-twin"), d], stdout=subprocess.PIPE, stderr=subprocess.STDOUT)
+        if p.returncode != 0:
+            raise variants.Skip("bin/cternary-twin failed: %s" % p.stdout.decode("utf-8", "replace")[-200:])
+    todo.append(("twin:TRN", None, "silent", {"apply": _trn, "rules": []}))
     with ThreadPoolExecutor(max_workers=int(os.environ.get("VP_JOBS", "16"))) as ex:
         results = list(ex.map(lambda t: _one(prop, *t), todo))
     for res in results:
